@@ -45,7 +45,12 @@ type cacheCase struct {
 }
 
 // nullEntities is a sim interceptor that makes some entities unknown to the subgraphs: the
-// decision depends on the representation alone, so it is the same for every request.
+// decision depends on the subgraph and on which entity the representation names (its type and
+// the number inside whichever key it carries), so it is the same for every request. It must not
+// depend on the rest of the representation: the engine may ask for one entity twice, by two
+// different keys or with and without a required input, depending on the completion order of
+// concurrent requests (finding C09-scheduled-twin-fetch-runs-before-sibling-producer), and a
+// decision per representation would turn that into different responses with and without cache.
 func nullEntities(every int, count *int) func(r *sim.Request, answer []byte) *sim.Response {
 	return func(r *sim.Request, answer []byte) *sim.Response {
 		reps, _ := r.Variables["representations"].([]any)
@@ -65,7 +70,7 @@ func nullEntities(every int, count *int) func(r *sim.Request, answer []byte) *si
 		changed := false
 		for i, rp := range reps {
 			h := fnv.New32a()
-			h.Write([]byte(ref.Canon(rp)))
+			h.Write([]byte(r.Subgraph + "|" + entityIdentity(rp)))
 			if h.Sum32()%uint32(every) == 0 && ents[i] != nil {
 				ents[i] = nil
 				changed = true
@@ -77,6 +82,25 @@ func nullEntities(every int, count *int) func(r *sim.Request, answer []byte) *si
 		*count++
 		return &sim.Response{Body: []byte(ref.JSON(m))}
 	}
+}
+
+// entityIdentity names the entity of a representation: type and number of the first key scalar
+// found (id, sku, info.kid - all carry the same number); the whole representation otherwise.
+func entityIdentity(rp any) string {
+	m, _ := rp.(map[string]any)
+	tn, _ := m["__typename"].(string)
+	cands := []any{m["id"], m["sku"]}
+	if info, ok := m["info"].(map[string]any); ok {
+		cands = append(cands, info["kid"])
+	}
+	for _, c := range cands {
+		if s, ok := c.(string); ok {
+			if _, _, n, ok := ref.ParseKeyScalar(s); ok {
+				return fmt.Sprintf("%s#%d", tn, n)
+			}
+		}
+	}
+	return ref.Canon(rp)
 }
 
 func allowFromEnv() map[string]bool {
